@@ -39,6 +39,8 @@ def dispatch (op : String) (args : List String) : String :=
         | some r => r
         | none => match marshalDispatch op args with
           | some r => r
-          | none => "(err bad-op)"
+          | none => match headerDispatch op args with
+            | some r => r
+            | none => "(err bad-op)"
 
 end XV.Driver
